@@ -101,6 +101,10 @@ def c03(tier):
     sweep_check(chk, f"arr-{tier}", sets.arr_set(tier), 'all', prof, full_w=fw, oob=True)
     sweep_check(chk, f"nc-{tier}", sets.nc_set(tier), 'all', prof, full_w=fw, oob=True, families=['NCARR'])
     chk.bounds.append("arrays of multi-range elements (NCARR family, incl. lists not starting at bit 0 and interleaving elements)")
+    # enum / Option<enum> / nested element types (shared build with C08)
+    sweep_check(chk, f"custom-{tier}", sets.custom_set(tier), 'all', prof, full_w=fw, oob=True,
+                families=['CUSTEXARR', 'CUSTOPTARR', 'CUSTNESTARR', 'CUSTEXNCARR', 'CUSTOPTNCARR', 'CUSTNESTNCARR'])
+    chk.bounds.append("arrays whose elements are exhaustive enums, Option<enum> and nested bitfields (the array families of C08's set)")
     chk.bounds.append("ARR(N) for N<=16: every (lo, w, stride>=w, K>=2) that fits x kind, every element index, out-of-range indices "
                       "{K, K+1, 2K, W, floor(usize::MAX/stride)+1, usize::MAX} on get/with_/set_; wide: ARRB boundary family, bool arrays of every K")
     return chk.finish()
@@ -201,7 +205,7 @@ PROPS['C08'] = c08
 
 def c16(tier):
     chk = core.Check('C16', tier)
-    chk.assumptions = ASSUME_REGMC + ["'any optimisation level' is covered as the pair {opt-level 0 + overflow checks + debug assertions, opt-level 3 without}"]
+    chk.assumptions = ASSUME_REGMC + ["'any optimisation level' is covered as the pair {opt-level 0 + overflow checks + debug assertions, opt-level 3 without}; the thorough tier adds {opt-level 2 + overflow checks}"]
     fw = 8
     t = tier
     plan = [
@@ -212,19 +216,20 @@ def c16(tier):
         (f"signed-{t}", sets.signed_set, t, dict(ops='all', oob=False)),
         (f"custom-{t}", sets.custom_set, t, dict(ops='all', oob=True)),
     ]
+    profiles = ('checked', 'fast') if tier == 'quick' else ('checked', 'mid', 'fast')
     for wsname, mk, mt, kw in plan:
         reps = {}
-        for prof in ('checked', 'fast'):
+        for prof in profiles:
             rep = sweep_check(chk, wsname, mk(mt), kw['ops'], prof, full_w=fw, full_n=16, oob=kw['oob'], label=f"{wsname}:{prof}")
             if rep is None:
                 break
             reps[prof] = rep
-        if len(reps) == 2:
+        if len(reps) == len(profiles):
             a, b = reps['checked']['digests'], reps['fast']['digests']
             if set(a) != set(b):
                 raise B.MachineryError("digest tables of the two profiles cover different machines")
             chk.validated += len(a)
-            diff = [m for m in a if a[m] != b[m]]
+            diff = [m for m in a if a[m] != b[m] or any(reps[p]['digests'].get(m) != a[m] for p in profiles)]
             chk.extra.setdefault("digest_pairs_compared", 0)
             chk.extra["digest_pairs_compared"] += len(a)
             heads = {ms['name']: ms['head'] for ms in json.load(open(os.path.join(B.WORK, wsname, "spec.json")))['machines']}
